@@ -13,7 +13,7 @@ DESC={
  "R4_C03_2":("stale swap value in update_min_nonce: the window reopens on every other idle tick","accepted datagram, then 3, 5, 7.. idle ticks, then replay","C03 lifetime_replays / window model"),
  "R4_C04_1":("word-wise nonce increment with the carry tested on the wrong value","send counter crossing a 2^32 boundary of its low word","C04 increment_boundaries"),
  "R4_C05_1":("failed payload decryption downgraded from fatal to recoverable: the half-consumed handshake survives","stale pong of a previous attempt reaches the second attempt twice (panic)","C05 node_schedules (panic); also C08 signed_replays"),
- "R4_C05_2":("handshake messages from the address of an established peer always go to that peer's crypto object","peer forgot us and re-dials while our entry (without handshake state) is alive: deaf until our peer timeout","NOT a violation of C05 as stated (heals within peer timeout + retry horizon, as its author notes); reported by C02 superseded_connection and C12 node_scenarios (restart_rejected)"),
+ "R4_C05_2":("handshake messages from the address of an established peer always go to that peer's crypto object","peer forgot us and re-dials while our entry (without handshake state) is alive: deaf until our peer timeout","C05 node_deviations since round 5 (one-shot dial towards a node with a 60 s peer timeout: one direction never comes back); with default settings the outage heals within the stated bound; also C02 superseded_connection, C12 node_scenarios"),
  "R4_C05_3":("pending handshake next to an established peer does not retransmit","re-dial by a known peer with the peng lost: both sides 'connected' with different keys until the old entry times out","NOT a violation of C05 as stated (heals within peer timeout + retry horizon, as its author notes); no check reports it"),
  "R4_C06_1":("tie of the minima broken by the node's OWN speed","exact tie of min(speed) with crossed speeds at the two ends","C06 pairs"),
  "R4_C06_2":("cipher rank taken from the key length (aes256 = chacha20)","tie between aes256 and chacha20 with different list orders","C06 pairs"),
